@@ -91,6 +91,10 @@ def run(F, R):
     # it (shared with C16.S4; the buffered network driver is the only such table outside the queue module)
     p8_release_after_completion(F, R, M)
     p9_platform_flag(F, R, M)
+    # P11: a descriptor (and the device address stored in it) belongs to one outstanding buffer at a time, so each unshare
+    # receives the address of its own share: free-list relink rules (shared with C03.E6)
+    from .C03 import e6_relink
+    e6_relink(F, R, M, pop_id, rule='P11')
     # P10: the device is given exactly the addresses obtained from DMA allocation: the transports' queue_set write the
     # three area addresses they receive - each 64-bit address split into its own low/high words - and nothing else
     # (register traces shared with C10.M2 / C11.W3)
